@@ -91,6 +91,11 @@ def cases(tier, seed):
         for how in ("value", "exc"):
             out.append({"name": "api.blocking-below-retry-manual/%s/%s" % (">".join(["throttle", "retry"] + above), how), "kind": "blockretrym",
                         "above": above, "how": how})
+    # a consumer chains onto / waits for a future while its work ends on another thread, both suspended mid-operation
+    for layers in (["map"], ["flat_map"], ["timeout"], ["throttle"], ["map", "map"]):
+        for op in ("cb", "f_map"):
+            out.append({"name": "api.attach-nested/%s/%s" % (">".join(layers), op), "kind": "attach-nested", "layers": layers, "how": "value",
+                        "direction": "end-first", "op": op, "budget": 120 if tier == "quick" else 1500})
     nf = 16 if tier == "quick" else 1500
     for i in range(nf):
         out.append({"name": "api.fuzz/%d" % i, "kind": "fuzz", "idx": i, "n": 12 if tier == "quick" else 30})
@@ -1031,6 +1036,9 @@ def run_case(case, res):
         return run_nested_race(case, res)
     if case["kind"] == "nestedcb":
         return run_nestedcb(case, res)
+    if case["kind"] == "attach-nested":
+        from . import c03
+        return c03.run_attach_nested(case, res)
     if case["kind"] == "secondclient":
         return run_secondclient(case, res)
     if case["kind"] == "blockretry":
